@@ -119,6 +119,10 @@ class PbnParser(Parser):
             # game except the first game of the PBN file.
             match = re.fullmatch(self.REPLACE_PATTERN, line)
             if match and not self._in_comment:
+                if len(self.tag_pair_buffer) == 0:
+                    # Another empty line (leading, trailing or consecutive)
+                    # does not delimit a game.
+                    continue
                 yield self.parse_board()
 
                 # initialization
